@@ -193,6 +193,9 @@ func LoopOf(phi *ssa.Phi) (*CountedLoop, bool) {
 	return nil, false
 }
 
+// Mentions reports whether the expression tree of v contains target.
+func Mentions(v, target ssa.Value) bool { return mentions(v, target, 0) }
+
 func mentions(v, target ssa.Value, depth int) bool {
 	if v == target {
 		return true
